@@ -212,16 +212,23 @@ func minimalFamily(c *ctx, g *gen, thorough bool) {
 				case d <= 2:
 					for si, m := range specs {
 						posts := []int{0}
-						if d == 1 || thorough {
+						if d == 1 || (thorough && si < len(minSpecsQuick)) {
 							posts = []int{0, 1, 2}
+						} else if thorough {
+							// the thorough-only members of the family at depth 2: nothing after the encoding
 						} else if (idx+si)%3 == 0 {
 							posts = []int{0, 1 + (idx/3)%2}
 						}
 						emit(t, m, d, posts, pre)
 					}
 				case thorough:
-					for _, m := range specs {
-						emit(t, m, d, []int{0, 1 + idx%2}, pre)
+					// depth 3, thorough tier: every shape; the all-minimal value and the empty-arrays value with
+					// nothing after them, and two more members of the family drawn from the VERIF_SEED stream
+					emit(t, specs[1], d, []int{0}, pre)
+					if t.dynamic() {
+						emit(t, specs[0], d, []int{0}, pre)
+						emit(t, specs[2+r.Intn(len(specs)-2)], d, []int{0}, pre)
+						emit(t, specs[2+r.Intn(len(specs)-2)], d, []int{0, 1 + idx%2}, pre)
 					}
 				default:
 					// depth 3, quick tier: every shape whose two inner wrappers are arrays (array of array of the
@@ -272,23 +279,43 @@ func minimalFamily(c *ctx, g *gen, thorough bool) {
 
 	// --- the just-failing neighbours of the exact-fit blocks (correspondence of every guard at its flip
 	// point: the implementation must reject / panic exactly where the model does) ---
-	nCut, nOff := 0, 0
-	for i, k := range pool {
+	// Quick tier: a fixed subsample of the pool (every depth <= 1 value, every 4th of depth 2, every 8th of depth 3).
+	// Thorough tier: the pool is visited in an order drawn from the VERIF_SEED stream and every stream has a
+	// budget (the full product - all cuts, every word against every delta and count - is millions of blocks
+	// and the 16 evaluators do not survive it; the budgets keep the family at about 10x the quick tier).
+	nCut, nOff, nCnt := 0, 0, 0
+	cutBudget, offBudget, cntBudget := 1<<30, 1<<30, 1<<30
+	order := make([]int, len(pool))
+	for i := range order {
+		order[i] = i
+	}
+	if thorough {
+		cutBudget, offBudget, cntBudget = 8000, 9000, 8000
+		for i := len(order) - 1; i > 0; i-- {
+			j := r.Intn(i + 1)
+			order[i], order[j] = order[j], order[i]
+		}
+	}
+	for _, i := range order {
+		k := pool[i]
 		if !thorough && ((k.d >= 3 && i%8 != 0) || (k.d == 2 && i%4 != 0)) {
 			continue
+		}
+		if nCut >= cutBudget && nOff >= offBudget && nCnt >= cntBudget {
+			break
 		}
 		enc := specEnc(k.t, k.v)
 		if len(enc) == 0 {
 			continue
 		}
 		cuts := []int{1}
-		if k.d <= 1 || thorough {
+		if k.d <= 1 {
 			cuts = []int{1, 31, 32, 33, 64}
-		} else if k.dyn && k.d == 2 {
+		} else if k.dyn && (k.d == 2 || thorough) {
 			cuts = []int{1, []int{31, 32, 33, 64}[(i+r.Intn(4))%4]}
 		}
 		for _, j := range cuts {
-			if j > len(enc) {
+			if j > len(enc) || nCut >= cutBudget {
 				continue
 			}
 			c.addRaw(k.t, append([]byte{}, enc[:len(enc)-j]...), 0, "minimal-cut")
@@ -302,7 +329,7 @@ func minimalFamily(c *ctx, g *gen, thorough bool) {
 		}
 		words := len(enc) / 32
 		nw := 1
-		if (k.d <= 1 && words <= 5) || thorough {
+		if k.d <= 1 && (words <= 5 || thorough) {
 			nw = words
 		}
 		for q := 0; q < nw; q++ {
@@ -317,7 +344,7 @@ func minimalFamily(c *ctx, g *gen, thorough bool) {
 			}
 			for _, delta := range deltas {
 				z := len(enc) - 32 - hs + delta
-				if z < 0 {
+				if z < 0 || nOff >= offBudget {
 					continue
 				}
 				b := append([]byte{}, enc...)
@@ -333,15 +360,19 @@ func minimalFamily(c *ctx, g *gen, thorough bool) {
 				counts = append(counts, rem/64, rem/64+1)
 			}
 			for _, z := range counts {
+				if nCnt >= cntBudget {
+					continue
+				}
 				b := append([]byte{}, enc...)
 				copy(b[32*w:], word(big.NewInt(int64(z))))
 				c.addRaw(k.t, b, 0, "minimal-count-at-fit")
-				nOff++
+				nCnt++
 			}
 		}
 	}
 	unpaddedLeaves(c, g, thorough)
-	st.Extra["minimal_family"] = map[string]int{"values": len(pool), "cut_blocks": nCut, "moved_offset_or_count_words": nOff}
+	st.Extra["minimal_family"] = map[string]int{"values": len(pool), "cut_blocks": nCut, "moved_offset_words": nOff, "moved_count_words": nCnt,
+		"cut_budget": cutBudget, "offset_budget": offBudget, "count_budget": cntBudget}
 }
 
 // unpaddedLeaves: the block ends inside / exactly at the end of the data of the last bytes, string or
